@@ -920,4 +920,18 @@ Section Protocol.
       assert (s' = t) by (apply (Hdj s' t u); auto; rewrite Eu; left; reflexivity). subst s'. exact Hd.
   Qed.
 
+  Lemma head_src_loop_head_l : forall st, reach c st -> head_src p (o st) = loop_head p (o st).
+  Proof. intros st R. eapply head_src_loop_head_inv. apply (reach_SInv st R). Qed.
+
+  (* instances of the transfer theorem *)
+  Lemma start_once_protocol_l : forall st, reach c st -> NoDup (started_ids (o st)).
+  Proof. intros st R. apply (proj1 (proj1 (k_i23 _ _ _ _ (reach_SInv st R)))). Qed.
+  Lemma start_requires_protocol_l : forall st, reach c st -> forall e, In e (started (o st)) -> start_ok p e.
+  Proof. intros st R. apply (proj1 (k_i1 _ _ _ _ (reach_SInv st R))). Qed.
+  Lemma results_sound_protocol_l : forall st, reach c st -> I5 p (o st).
+  Proof.
+    intros st R. apply (reach_stable (I5 p)); [apply I5_stable; assumption | | exact R].
+    split; [constructor | intros ? []].
+  Qed.
+
 End Protocol.
